@@ -56,6 +56,15 @@ fn main() {
                 .join(" "),
         );
     }
+    // A parent that ignores SIGCHLD hands that on to us across exec; the kernel then reaps
+    // our children itself and every wait() answers ECHILD ("could not check for broken
+    // locks: ECHILD" before anything was built).  We wait for our children: default it.
+    unsafe {
+        let _ = nix::sys::signal::signal(
+            nix::sys::signal::Signal::SIGCHLD,
+            nix::sys::signal::SigHandler::SigDfl,
+        );
+    }
     let exit_code = {
         let name = env::args_os()
             .nth(0)
